@@ -46,6 +46,12 @@ def gen(ctx):
         else:
             u = [rng.randint(lo, hi) for _ in range(L)]
         yield dict(kind="ap", u=u, m=m, r=rng.choice([0, 0, 1, 2, 3]), digits=int(digits))
+    for _ in range(ctx.n(60, 600)):
+        base = rng.choice([10 ** 5, 250000, 3 * 10 ** 6, -10 ** 6, 10 ** 9])
+        m = rng.choice([1, 2])
+        L = rng.randint(m + 2, 14)
+        gap = rng.choice([1, 1, 2])
+        yield dict(kind="ap", u=[base + gap * rng.randint(0, 3) for _ in range(L)], m=m, r=rng.choice([0, 0, 1]), digits=0)
     for L in ([130, 300] if ctx.tier == "quick" else [127, 128, 129, 130, 257, 300, 600]):
         m = rng.choice([1, 2, 3])
         yield dict(kind="ap", u=[rng.randint(0, 3) for _ in range(L)], m=m, r=rng.choice([0, 1]), digits=1, long=1)
@@ -114,6 +120,10 @@ def oracle(c):
         vs = call(c, "str") if c["digits"] else vl
         extra = {}
         for form in ("column", "strided", "reversed", "int32", "int16"):
+            if form == "int16" and not all(-30000 <= x <= 30000 for x in c["u"]):
+                continue
+            if form == "int32" and not all(-2 ** 31 < x < 2 ** 31 for x in c["u"]):
+                continue
             extra[form] = call(c, form)
         if all(-100 <= x <= 100 for x in c["u"]):
             extra["int8"] = call(c, "int8")
